@@ -102,7 +102,7 @@ class _Scenarios:
 
     def run(self, text: SStr, fn):
         self.opened = []
-        outs = self.I.explore("parser.Parser.load_includes", lambda: (pai.Inst("parser.Parser"), [text], {"fn": fn} if fn is not None else {}))
+        outs = self.I.explore("parser.Parser.load_includes", lambda: (models.new_parser(self.I), [text], {"fn": fn} if fn is not None else {}))
         if len(outs) != 1:
             raise AnalysisError(f"load_includes forks on the scenario: {[o.assumptions for o in outs]}")
         return outs[0], list(self.opened)
@@ -319,7 +319,7 @@ def run(ctx: Ctx) -> None:
                 if comment:
                     # the comment text may contain anything but a newline; model it as words without '#'
                     line = SStr(pieces + [Atom("c", excludes=frozenset(" \t\n\r\x0b\x0c#"))])
-                inst = pai.Inst("parser.Parser") if gif_m else None
+                inst = models.construct(e, "parser.Parser") if gif_m else None
                 return inst, [line], {}
             try:
                 outs = I.explore(gif_q, make)
@@ -336,7 +336,7 @@ def run(ctx: Ctx) -> None:
         ("bare INCLUDE", lambda: SStr(["INCLUDE"]), lambda v: v is None),
     ]
     for name, mk, okv in extra_shapes:
-        outs = I.explore(gif_q, lambda mk=mk: (pai.Inst("parser.Parser") if gif_m else None, [mk()], {}))
+        outs = I.explore(gif_q, lambda mk=mk: (models.construct(e, "parser.Parser") if gif_m else None, [mk()], {}))
         good = len(outs) == 1 and outs[0].kind == "return" and okv(outs[0].value)
         ctx.check(good, "I6", name, repo.loc("parser", repo.func(gif_q)), f"returns {outs[0].value!r}" if outs else "", f"for an INCLUDE line with {name} the helper gives {[(o.kind, o.value, o.exc) for o in outs]}" + (" (expected: no file name, so that the parser reports the line)" if "INCLUDE" in name else " (expected the bare name)"))
     ctx.units.update({"functions": ["parser.Parser.load_includes", gif_q, "parser.Parser.open_file", "parser.Parser.parse_file", "parser.Parser.load", "parser.Parser.parse"], "pai_paths": I.paths_run})
